@@ -277,6 +277,10 @@ func NewMsgCancelUnbondingDelegation(args []interface{}, denom string) (*staking
 	if !ok {
 		return nil, common.Address{}, fmt.Errorf("invalid creation height")
 	}
+	// the argument is a 256-bit word and the message field an int64: a height that does not fit names no entry
+	if !creationHeight.IsInt64() {
+		return nil, common.Address{}, fmt.Errorf("invalid creation height: %s", creationHeight)
+	}
 
 	msg := &stakingtypes.MsgCancelUnbondingDelegation{
 		DelegatorAddress: sdk.AccAddress(delegatorAddr.Bytes()).String(), // bech32 formatted
